@@ -474,6 +474,10 @@ var vfStderrTemplates = []string{
 	"",
 	"   ",
 	"Suite/verif-c11/case: prefix of a name: msg",
+	// a line longer than any line buffer (a dumped header value, a stack trace on one line)
+	"long log line " + strings.Repeat("0123456789abcdef", 4400),
+	// feedback whose message has colons of its own
+	"Suite/verif-c11/case-%d: invalid value for \"grpc-timeout\" header: \"5x\": unknown unit",
 }
 
 func vfGenC11(t *rapid.T) vfC11Case {
